@@ -328,6 +328,8 @@ def rule_normalize(ck, methods, all_acc):
         """'norm' | 'raw' | 'last' | 'iter' | None"""
         if q.dotted(key) == "self._last_key":
             return "last"
+        if isinstance(key, ast.Attribute) and key.attr == "_last_key":
+            return "last"   # another HTTPHeaders' _last_key obeys the same invariant (reading it from outside self is C06.owner's business)
         if isinstance(key, ast.Call) and q.call_attr(key) == "_normalize_header":
             return "norm"
         if isinstance(key, ast.Name):
@@ -388,10 +390,42 @@ def rule_owner(ck):
                 base = q.dotted(x.value)
                 if inside and base == "self":
                     continue
+                if inside:
+                    continue   # another instance's state read inside the class: whether it is *copied* is decided by C06.copy-independent
                 n += 1
                 ck.ob("C06.owner", fi, x, False, "%s.%s is accessed outside HTTPHeaders' own 'self' (only HTTPHeaders methods may touch the two dicts; other instances go through the public API)" % (base, x.attr))
     # positive control / floor: the class itself uses both
     return n
+
+
+def _copy_verdict(v, d):
+    """Is ``v`` (initialiser of self._as_list / self._combined_cache) independent of every other object?
+    True / False (positively shares) / None (not recognised)."""
+    if v is None:
+        return None
+    foreign = [x for x in ast.walk(v) if isinstance(x, ast.Attribute) and x.attr in ("_as_list", "_combined_cache")]
+    if any(isinstance(x, ast.Call) and q.call_attr(x) == "deepcopy" for x in ast.walk(v)):
+        return True
+    if isinstance(v, (ast.Attribute, ast.Name, ast.Subscript)):
+        return False if (foreign or isinstance(v, ast.Name)) else None      # bound to somebody else's dict object
+    shallow = (isinstance(v, ast.Call) and (q.dotted(v.func) in ("dict", "copy.copy") or q.call_attr(v) == "copy")) or (isinstance(v, ast.Dict) and any(k is None for k in v.keys))
+    if d == CACHE:
+        # values are immutable strings: a shallow copy is independent
+        if shallow or isinstance(v, ast.DictComp):
+            return True
+        return None
+    # _as_list: the value lists must be fresh objects too
+    if isinstance(v, ast.DictComp):
+        val = v.value
+        fresh_val = isinstance(val, (ast.List, ast.ListComp)) or (isinstance(val, ast.Call) and (q.dotted(val.func) in ("list", "copy.copy") or q.call_attr(val) == "copy")) or (isinstance(val, ast.Subscript) and isinstance(val.slice, ast.Slice))
+        if fresh_val:
+            return True
+        if isinstance(val, (ast.Name, ast.Attribute, ast.Subscript)):
+            return False    # {k: v for ...}: the very same list objects
+        return None
+    if shallow and foreign:
+        return False        # dict(other._as_list) / other._as_list.copy(): new dict, shared lists
+    return None
 
 
 def rule_copy(ck, methods, all_acc):
@@ -408,10 +442,10 @@ def rule_copy(ck, methods, all_acc):
                 v = getattr(st, "value", None)
                 n += 1
                 fresh = (isinstance(v, ast.Dict) and not v.keys) or (isinstance(v, ast.Call) and q.dotted(v.func) in ("dict", "collections.OrderedDict") and not v.args and not v.keywords)
-                shares = v is not None and any(isinstance(x, ast.Attribute) and x.attr in ("_as_list", "_combined_cache") for x in ast.walk(v)) and not any(isinstance(x, ast.Call) and q.call_attr(x) == "deepcopy" for x in ast.walk(v))
-                if not fresh and not shares and not isinstance(v, (ast.Name, ast.Attribute, ast.Subscript)):
+                verdict = _copy_verdict(v, a.d) if not fresh else True
+                if verdict is None:
                     raise AnalysisError("C06.copy-independent: unknown initialiser for %s in %s: %s" % (a.d, fi.qualname, q.unparse(v) if v is not None else "?"))
-                ck.ob("C06.copy-independent", fi, st, fresh, "%s is bound to a fresh empty dict (never to another object's dict)" % a.d)
+                ck.ob("C06.copy-independent", fi, st, verdict, "%s is bound to a fresh dict%s, never to (or sharing mutable parts with) another object's dict" % (a.d, " with fresh value lists" if a.d == LIST else ""))
             if a.d == LIST and a.kind in ("store", "setdefault"):
                 if a.kind == "store":
                     st = q.parent_map(fi.node).get(a.node)
@@ -428,12 +462,18 @@ def rule_copy(ck, methods, all_acc):
     # (b) copy constructor: values are re-added one by one
     loops = [x for x in q.walk_body(init.node) if isinstance(x, ast.For) and isinstance(x.iter, ast.Call) and q.call_attr(x.iter) == "get_all"]
     if not loops:
+        # a copy constructor that takes the source's state directly: every read of the source's dicts must be inside a
+        # whole-dict store judged above (a copy); anything else is not recognised
         foreign = [x for x in q.walk_body(init.node) if isinstance(x, ast.Attribute) and x.attr in ("_as_list", "_combined_cache") and q.dotted(x.value) != "self"]
         if not foreign:
             raise AnalysisError("HTTPHeaders.__init__: copy-constructor loop over other.get_all() not found (unknown idiom)")
+        stores = [pm.get(a.node) for a in all_acc[init.qualname] if a.kind == "whole-store"]
         for x in foreign:
-            n += 1
-            ck.ob("C06.copy-independent", init, x, False, "the copy constructor reads the source's %s directly instead of re-adding each (name, value) pair (list objects become shared)" % x.attr)
+            if not any(st is not None and any(y is x for y in ast.walk(st)) for st in stores):
+                raise AnalysisError("HTTPHeaders.__init__: the source's %s is used outside a recognised copy (unknown idiom)" % x.attr)
+        copied = {a.d for a in all_acc[init.qualname] if a.kind == "whole-store" and any(isinstance(y, ast.Attribute) and y.attr in ("_as_list", "_combined_cache") and q.dotted(y.value) != "self" for y in ast.walk(pm.get(a.node)))}
+        n += 1
+        ck.ob("C06.copy-independent", init, init.node, LIST in copied, "a copy constructor that does not re-add the pairs copies the source's value lists", construct="state copy without _as_list")
     for lp in loops:
         tnames = [t.id for t in ast.walk(lp.target) if isinstance(t, ast.Name)]
         adds = [c for st in lp.body for c in q.calls(st) if q.dotted(c.func) == "self.add"]
@@ -761,6 +801,7 @@ def _src(st):
 
 
 MUTANTS = [
+    ("seeded C06-adv4: copy constructor takes the source's state (value lists duplicated, _combined_cache shared by reference)", _m("HTTPHeaders", replace_stmt(lambda st: isinstance(st, ast.For) and "get_all" in _src(st) and "self.add" in _src(st), lambda st: ast.parse("other = args[0]\nself._as_list = {k: list(v) for k, v in other._as_list.items()}\nself._combined_cache = other._combined_cache\nself._last_key = other._last_key").body)), ("C06.copy-independent", "C06.owner")),
     ("value-exact: add() strips the value before storing it", _m("HTTPHeaders.add", replace_expr(lambda n: isinstance(n, ast.Call) and q.call_attr(n) == "append", lambda n: parse_expr("self._as_list[norm_name].append(value.strip())"))), "C06.value-exact"),
     ("serialize: __str__ iterates items() (repeated headers serialised as one comma-joined line)", _m("HTTPHeaders.__str__", replace_expr(lambda n: isinstance(n, ast.Call) and q.call_attr(n) == "get_all", lambda n: parse_expr("self.items()"))), "C06.serialize"),
     ("serialize: get_all yields only the first value of each name", _m("HTTPHeaders.get_all", replace_expr(lambda n: isinstance(n, ast.Name) and n.id == "values" and isinstance(n.ctx, ast.Load), lambda n: parse_expr("values[:1]"))), "C06.serialize"),
